@@ -95,9 +95,11 @@ static ares_status_t ares_search_next(ares_channel_t      *channel,
   status = ares_send_nolock(channel, NULL, 0, squery->dnsrec, search_callback,
                             squery, NULL);
 
-  if (status != ARES_EFORMERR) {
-    *skip_cleanup = ARES_TRUE;
-  }
+  /* ares_send_nolock() invokes the callback on every failure, including
+   * ARES_EFORMERR (e.g. a name that is too long once the search domain is
+   * appended), so search_callback() has already ended or advanced the search
+   * and squery may no longer exist. */
+  *skip_cleanup = ARES_TRUE;
 
   return status;
 }
